@@ -240,7 +240,7 @@ META = {
         "evaluations": ["crash_runs", "fault_runs", "fault_crash_runs"],
         "required": ["scenarios_traced", "crash_runs", "killed_at:write", "killed_at:openat", "killed_at:renameat", "killed_at:mkdirat", "killed_at:close",
                      "later_run_replayed", "later_run_found_nothing", "second_saves_after_kill",
-                     "fault_runs", "fault_crash_runs", "fault_injected:renameat=EXDEV", "fault_killed_at:unlinkat"],
+                     "fault_runs", "fault_crash_runs", "fault_injected:renameat=EXDEV", "fault_killed_at:unlinkat", "explicit_crash_runs", "explicit_file_untouched"],
         "show": ["scenarios_traced", "save_syscalls", "crash_runs", "later_run_replayed", "later_run_found_nothing", "crash_point_not_reached", "fault_runs", "fault_crash_runs"],
         "rule": "a child process (main goroutine locked to the main thread) runs a real failing Check with fail files on in an empty directory under "
                 "strace; the reference trace lists every file-system-affecting system call of the main thread between two marker calls (mkdirat, openat, "
@@ -427,7 +427,7 @@ _MORE9 = {
     "C17": "Every other of the 400 unusable entries of the many-empty-files child is a directory with the name of a fail file.",
 }
 _MORE10 = {
-    "C16": "Family fault: one file-system call of the save (mkdirat, openat, write, close, renameat, unlinkat; first and last call of every name in the quick tier, every call in the thorough tier) is made to FAIL (ENOSPC, EIO, EDQUOT, EACCES, EMFILE, EXDEV, EBUSY, EROFS by strace error injection); the faulted run is judged by the same trace and directory oracles, and the process is then killed at every later file-system call (of another name - strace keeps one injection per call name) of the error path the library takes.",
+    "C16": "Family fault: one file-system call of the save (mkdirat, openat, write, close, renameat, unlinkat; first and last call of every name in the quick tier, every call in the thorough tier) is made to FAIL (ENOSPC, EIO, EDQUOT, EACCES, EMFILE, EXDEV, EBUSY, EROFS by strace error injection); the faulted run is judged by the same trace and directory oracles, and the process is then killed at every later file-system call (of another name - strace keeps one injection per call name) of the error path the library takes. A third of the crash scenarios let minimisation run to its end first (the crash window is the whole failing Check, not only the save). Family explicit: the failing run was started with -rapid.failfile naming a file that is missing or a complete fail file that no longer reproduces (inside or outside the test's directory): that path is picked up by the next run with the same command line, so it must never be opened for writing and must hold what it held before, or a complete save, at every crash point.",
 }
 for _k, _v in _MORE10.items():
     _MORE9[_k] = _MORE9.get(_k, "") + " " + _v
